@@ -35,7 +35,9 @@ def monitorConn (a : OpInst) (cut : Bool) (impl : String) : Option Bool :=
   match words impl with
   | [res, next, deliver] =>
     let base := (deliver == "-" || deliver == "prefix") && res != "panic" && res != "hang"
-    if cut then some (base && (isFailStr res || res.startsWith "kafka:") && isFailStr next)
+    -- a cut response is a non-kafka error — also when the error code had arrived before the cut: what is left of the
+    -- frame cannot be skipped (cut_is_error, fetch_cut_is_error: fail ∧ closed)
+    if cut then some (base && isFailStr res && isFailStr next)
     else (specJudge a res).map (fun okA => base && okA && isDone res)     -- full frame: judged as in C11
   | _ => some false
 
@@ -68,8 +70,8 @@ def monitorTwo (a b : OpInst) (k : Nat) (impl : String) : Bool :=
     let la := a.body.length + 8
     let lb := b.body.length + 8
     isDone ra && isDone rb &&
-    (if k < la then isFailStr ra || ra.startsWith "kafka:" else !isFailStr ra || (specJudge a ra).isNone) &&
-    (if k < la + lb then isFailStr rb || rb.startsWith "kafka:" else true)
+    (if k < la then isFailStr ra else !isFailStr ra || (specJudge a ra).isNone) &&
+    (if k < la + lb then isFailStr rb else true)
   | _ => false
 
 /-! Transport path -/
@@ -101,7 +103,9 @@ def noReuse : List TransportConn.Ev → Bool
 
 /-- expected outcome of the call that hits the cut -/
 def firstExpected (scenario : String) : String :=
-  if scenario.startsWith "writer.WriteMessages/metadata" || scenario.startsWith "reader." then "returned"
+  -- client.Metadata is answered from the pool's cached state: the request whose response is cut is the pool's own
+  -- refresh, and whether the caller sees its error or already the next (successful) refresh is a matter of timing
+  if scenario.startsWith "writer.WriteMessages/metadata" || scenario.startsWith "reader." || scenario.startsWith "client.Metadata" then "returned"
   else if scenario.startsWith "writer.WriteMessages" then "ok"     -- the Writer retries on a new connection
   else "err"
 
@@ -167,6 +171,15 @@ def step (line : String) : String :=
         | none, _ => "bad-op"
         | _, none => "bad-frame: body is not an encoding of the Spec layout"
       | _, _, _, _ => "bad-args"
+    | ["c17rawt", hr, ks] =>
+      -- Transport path (saslauthenticate RawExchange): the same un-framed answer, model `rawToken`
+      match ofHex hr, ks.toNat? with
+      | some resp, some k =>
+        let (ra, _) := rawToken (resp.take k)
+        let m := if showOutcome ra == "ok" then s!"ok {resp.length - 4}" else "err"
+        let h := if k < resp.length then impl == "err" else impl == s!"ok {resp.length - 4}"
+        s!"model={m} holds={if h then 1 else 0}"
+      | _, _ => "bad-args"
     | ["c17raw", hr, ks, hn] =>
       match ofHex hr, ks.toNat?, ofHex hn with
       | some resp, some k, some nb =>
@@ -183,6 +196,24 @@ def step (line : String) : String :=
           s!"model={showOutcome ra} {showOutcome rn} holds={if h then 1 else 0}"
         | none => "bad-op"
       | _, _, _ => "bad-args"
+    | ["c2x", t, sa, ha, sb, hb, ds] =>
+      -- two in flight, one response for neither: the model's waiter finds a foreign id at the head of the stream and
+      -- gives the Conn up (the code does so when its deadline expires); the second caller finds it closed
+      match ofHex t, parseInst sa ha, parseInst sb hb, ds.toNat? with
+      | some topic, some a, some b, some d =>
+        let stream := frame (1 + d) a.body
+        match runInstL true topic a (⟨stream, 1, false⟩, false) with
+        | some (ra, c1) =>
+          match runInstL true topic b c1 with
+          | some (rb, _) =>
+            let norm (s : String) := if s == "fail:noprogress" then "fail" else s
+            let h := match words impl with
+              | [x, y] => isFailStr x && isFailStr y
+              | _ => false
+            s!"model={norm (showOutcome ra)} {norm (showOutcome rb)} holds={if h then 1 else 0}"
+          | none => "bad-op"
+        | none => "bad-op"
+      | _, _, _, _ => "bad-args"
     | ["c2", t, sa, ha, sb, hb, ks] =>
       match ofHex t, parseInst sa ha, parseInst sb hb, ks.toNat? with
       | some topic, some a, some b, some k =>
